@@ -79,6 +79,10 @@ def meta_records(o, sc, c, t0, t1):
         if d is None or d["k"] != "file":
             continue
         sm, smt, su, sg, sx = md(e); dm, dmt, du, dg, dx = md(d)
+        # a numbered backup renames the old file away: the destination is then a NEW file (default mode), not the previous one
+        backed_up = any(len(q) == len(dpath) and q[:-1] == dpath[:-1] and q[-1].startswith(dpath[-1] + ".~") and q not in before for q in after)
+        if backed_up:
+            p = None
         rel = max(-2 ** 30, min(2 ** 30, (int(dmt) - t0) // 1000000))
         recs.append({"id": "%s:%s" % (sc["id"], "/".join(path)), "exit": o["exit"], "noperms": c["noperms"], "notimes": c["notimes"], "ownership": c["ownership"],
                      "smode": sm, "dmode": dm, "pmode": md(p)[0] if p is not None and p["k"] == "file" else -1, "umask": c["umask"], "smtime": smt, "dmtime": dmt,
